@@ -157,6 +157,17 @@ CHECKS = {
             "machine widths are modelled only through the toy width invariant and observed through the real-scale postcondition.",
             "TLA+ state machine of the lattice reduction: exhaustive TLC at toy scale + real-scale TLC trace validation of recorded short vectors and triple multiplications",
             "5/C16"),
+    "C11": ("model_checking",
+            "Ristretto.tla is RFC 9496 section 4.3 verbatim, parametric in the curve. TLC checks on complete toy curves (all of which carry "
+            "Ristretto) that exactly l strings decode and each re-encodes to itself, that all four coset representatives of every element "
+            "in every projective scaling encode identically and compare Equal while different cosets never do, and that MAP yields a valid "
+            "point of 2E for every field element. The same module with edwards25519 judges executions recorded inside package curve: "
+            "non-canonical / negative s, bit 255 on valid encodings, lengths, the identity coset, random and mutated encodings, all four "
+            "representatives with random scalings (cross-event equality of their bytes), Equal, SetUniformBytes on boundary strings, group "
+            "operations through the Ristretto wrappers, and the embedded base-point encoding.",
+            "Trusts TLC/SANY, BigNat/F25519, RFC 9496 formulas as definition; square-root certificates are untrusted and verified.",
+            "TLA+ transcription of RFC 9496: exhaustive TLC on toy curves + real-scale TLC trace validation of in-package recorded executions",
+            "5/C11"),
 }
 
 NOT_YET = "check not built yet in this round (planned, see DESIGN.md section 11); not claimed until its machinery exists"
